@@ -305,7 +305,46 @@ def scen_array(rec, rng, single, variadic, state, args):
         rec.count("array.nested_annotation")
     x = real.np_array(shape)
     ann = Ann("Float", spec, nest=nest)
-    judge(rec, desc, lambda: isinstance(x, ann), names, vnames, [], tent if mv != "ok" else (), "array")
+    via = rng.choice(("isinstance", "isinstance", "isinstance", "beartype.is_bearable", "beartype.die_if_unbearable", "typeguard.check_type", "explain-hook"))
+    desc["via"] = via
+    rec.count("array.via." + via)
+    judge(rec, desc, _asker(via, x, ann), names, vnames, [], tent if mv != "ok" else (), "array")
+
+
+def _asker(via, x, ann):
+    """the ways a typechecker asks: plain isinstance, beartype's DOOR API (which, for a value that does not match,
+    additionally calls the `__instancecheck_str__` hook to build its message), typeguard's check_type, and that
+    hook called directly the way beartype calls it"""
+    if via == "beartype.is_bearable":
+        import beartype.door
+
+        return lambda: beartype.door.is_bearable(x, ann)
+    if via == "beartype.die_if_unbearable":
+        import beartype.door
+        import beartype.roar
+
+        def ask():
+            try:
+                beartype.door.die_if_unbearable(x, ann)
+                return True
+            except beartype.roar.BeartypeDoorHintViolation:
+                return False
+
+        return ask
+    if via == "typeguard.check_type":
+        import typeguard
+
+        def ask():
+            try:
+                typeguard.check_type("x", x, ann)
+                return True
+            except TypeError:
+                return False
+
+        return ask
+    if via == "explain-hook" and hasattr(type(ann), "__instancecheck_str__"):
+        return lambda: type(ann).__instancecheck_str__(ann, x) == ""
+    return lambda: isinstance(x, ann)
 
 
 def scen_array_raise(rec, rng, single, variadic, state, args):
